@@ -409,3 +409,53 @@ func H18_ring_close_vs_wrapped_consumer() {
 	_ = sum
 	vrtReach("C18.ring_close_vs_wrapped_consumer")
 }
+
+// P15: a LARGE retained message (2100 bytes; the small ones above never leave the first allocation class)
+// is refreshed with a message of the same size - or a smaller one - at the moment two new subscriptions
+// look it up and encode it for their connections, which they do after the store's lock is released: what
+// the store hands out must not be rewritten under its readers (round-8 change C18-15 reused the stored
+// encode buffer for updates of 2048 bytes and more that fit the old capacity). Each subscriber receives
+// the retained message exactly once, entirely the old or entirely the new one.
+func H18_retained_refresh_large() {
+	b := vrtBroker("mockSuccess")
+	p, _ := b.connect(vrtConnectPkt([]byte("p"), true))
+	mk := func(n int, fill byte) []byte {
+		x := make([]byte, n)
+		for i := range x {
+			x[i] = fill
+		}
+		return x
+	}
+	q := byte(vrtChoice("stored_qos", 2))
+	oldp := mk(2100, 'A')
+	newp := mk(2100-vrtChoice("shrinks_by", 2)*50, 'B')
+	first := &specPkt{Typ: specPUBLISH, Flags: 1 | q<<1, Topic: []byte("r"), Payload: oldp}
+	second := &specPkt{Typ: specPUBLISH, Flags: 1 | q<<1, Topic: []byte("r"), Payload: newp}
+	if q > 0 {
+		first.ID, second.ID = 3, 4
+	}
+	vrtExchange(p, first)
+	s1, _ := b.connect(vrtConnectPkt([]byte("s1"), true))
+	s2, _ := b.connect(vrtConnectPkt([]byte("s2"), true))
+	in := vrtNewInproc()
+	s1.peerSend(specEncode(&specPkt{Typ: specSUBSCRIBE, ID: 1, Topics: [][]byte{[]byte("r")}, QoS: []byte{1}}))
+	p.peerSend(specEncode(second))
+	s2.peerSend(specEncode(&specPkt{Typ: specSUBSCRIBE, ID: 1, Topics: [][]byte{[]byte("+")}, QoS: []byte{0}}))
+	b.svr.Subscribe("r", 1, &in.fn)
+	vrtQuiesce()
+	for _, s := range []*vrtConn{s1, s2} {
+		got, ok := vrtParse(s.peerTake())
+		vrtAssert("C18.stream_wellformed", ok)
+		n := 0
+		for _, g := range got {
+			if g.Typ != specPUBLISH || g.Flags&1 == 0 {
+				continue // (the SUBACK; a live forward of the update carries no retain flag)
+			}
+			n++
+			whole := vrtOr(vrtBytesEq(g.Payload, oldp), vrtBytesEq(g.Payload, newp))
+			vrtAssert("C18.retained_message_not_torn", whole)
+		}
+		vrtAssert("C18.retained_delivered_once", n == 1)
+	}
+	vrtReach("C18.retained_refresh_large")
+}
